@@ -80,6 +80,63 @@ def run(chk, prog):
                        'variables_state.callstack at the new flow\'s call stack: temporary variables would be looked up '
                        'in another flow' % (fn.short, what), fn.loc(bb), {'witness_blocks': w})
     chk.floor(RA, 'functions replacing the current flow / its call stack', n_inst, 3)
+
+    # ---- (a2) the text/tag caches follow the output stream
+    RD = 'C10.output-caches-follow-the-stream'
+    chk.rule(RD, 'current_text / current_tags are caches of the current flow\'s output stream, refreshed only when '
+             'the dirty flags say so. Every function that replaces the current flow as a whole (assignment, mem::swap / '
+             'replace) or writes Flow::output_stream (assignment, push, remove, drain, clear) reaches '
+             'output_stream_dirty() - or sets both dirty flags - on every path to a successful return: otherwise '
+             'get_current_text after a flow switch / load / rewind answers with the text of the other flow.')
+    from analysis.wbf import err_exits as _err_exits
+    from analysis.effects import Effects as _Effects
+    eff_ = _Effects(prog, tracer=tr)
+    n_out = 0
+    for fn in sorted(prog.fns.values(), key=lambda f: f.p):
+        if fn.crate != 'bladeink' or '::tests::' in fn.p:
+            continue
+        writes = []
+        for bb, si, s_ in fn.stmts():
+            if s_['k'] != 'assign':
+                continue
+            fl = fields_of_place(s_['pl'])
+            if fl and (fl[-1] == ('StoryState', 'current_flow') or fl[-1] == ('Flow', 'output_stream')):
+                writes.append((bb, 'assignment to %s' % '.'.join(n for _, n in fl)))
+        for e in eff_.events(fn):
+            if e['kind'] in ('mutator', 'interior') and 'Flow::output_stream' in e['fields'] \
+                    and not (set(e['fields']) & {'Flow::current_choices', 'Flow::callstack', 'Flow::name'}):
+                writes.append((e['bb'], e['what']))
+        for bb, t in fn.calls():
+            if callee_short(t) in ('mem::swap', 'mem::replace', 'mem::take'):
+                for a in t['args']:
+                    fs = fields_of(tr.prov(fn, a))
+                    if 'StoryState::current_flow' in fs and not (fs - {'StoryState::current_flow', 'Story::state'}):
+                        writes.append((bb, '%s on current_flow' % callee_short(t)))
+        if not writes:
+            continue
+        g = cfg(fn)
+        dirty = [bb for bb, t in fn.calls() if callee_short(t) == 'StoryState::output_stream_dirty']
+        td = [bb for bb, si, s_ in fn.stmts() if s_['k'] == 'assign' and fields_of_place(s_['pl'])
+              and fields_of_place(s_['pl'])[-1] == ('StoryState', 'output_stream_text_dirty')]
+        gd = [bb for bb, si, s_ in fn.stmts() if s_['k'] == 'assign' and fields_of_place(s_['pl'])
+              and fields_of_place(s_['pl'])[-1] == ('StoryState', 'output_stream_tags_dirty')]
+        if td and gd:
+            dirty += [b for b in td if b in gd] or (td if all(any(g.dominates(x, y) or g.dominates(y, x) for y in gd)
+                                                             for x in td) else [])
+        errs = [b for b, d_, s_ in _err_exits(prog, fn)]
+        root = prog.root_fn(fn).short
+        ords = {}
+        for bb, what in writes:
+            n_out += 1
+            i_ = ords.get(what, 0)
+            ords[what] = i_ + 1
+            w = None if bb in dirty else g.path(g.succ[bb], lambda b: b in g.returns, avoid=dirty + errs)
+            chk.decide(RD, chk.key(RD, root, what.replace(' ', '_')[:60], '#%d' % i_), w is None,
+                       'the dirty flags are set on every successful path after the write',
+                       '%s changes what the output stream of the current flow is (%s) and can return without marking the '
+                       'text / tag caches dirty: get_current_text keeps answering with the cached text of the stream as it '
+                       'was before' % (root, what), fn.loc(bb), {'witness_blocks': w})
+    chk.floor(RD, 'writes of the current flow / its output stream', n_out, 8)
     # constructor: both from the same call stack
     sn = prog.fn('StoryState::new')
     if chk.anchor(RA, 'StoryState::new', sn):
